@@ -51,6 +51,41 @@ def handle : List String → String
     let m := if m = "" then "-" else m
     -- spec: retryable always followed by a sleep; at most two immediate server retries
     if m = sleeps then s!"OK tags=rpc,len{cs.length}" else s!"DIFF model={m} impl={sleeps}"
+  | ["gaps", api, kind, _n, res, atts] =>
+    -- attempts seen by the simulated servers: kind.outcome.time_us ; consecutive attempts must be
+    -- separated by the schedule (lower bounds), except at most two immediate retries after a
+    -- connection / region failure and none after a retry-later answer
+    let parts := atts.splitOn ";"
+    let evs0 := parts.filterMap (fun a => match a.splitOn "." with
+      | [k, o, t] => t.toNat?.map (fun t => (k, o, t))
+      | _ => none)
+    if evs0.length ≠ parts.length then "BAD attempts" else
+    -- a successful probe is not an attempt of the request
+    let evs : List (String × Nat) := (evs0.filter (fun e => !(e.1 = "probe" && e.2.1 = "ok"))).map (fun e => e.2)
+    if res ≠ "ok" then s!"SPEC key=request-failed-after-transient-{kind} result={res}" else
+    -- the failed attempts, in order, followed by the first successful one after the last failure
+    let idx : List ((String × Nat) × Nat) := evs.zipIdx
+    let lastFail : Option Nat := ((idx.filter (fun p => p.1.1 ≠ "ok")).getLast?).map (fun p => p.2)
+    let ts : List Nat := match lastFail with
+      | none => []
+      | some k =>
+        let failed : List Nat := ((evs.take (k + 1)).filter (fun e => e.1 ≠ "ok")).map (fun e => e.2)
+        let next : List Nat := match (evs.drop (k + 1)).head? with
+          | some e => [e.2]
+          | none => []
+        failed ++ next
+    let gaps := (ts.zip (ts.drop 1)).map (fun (a, b) => b - a)
+    let immediate := gaps.filter (· < 8000)
+    let waited := gaps.filter (· ≥ 8000)
+    let allowedImmediate := if kind = "retryable" then 0 else 2
+    let _ := api
+    if immediate.length > allowedImmediate then
+      s!"SPEC key=hot-retry-{api}-{kind} immediate={immediate.length} gaps_us={gaps}"
+    else
+      let sched : List Nat := (List.range waited.length).map (fun i => ((sched i) / 1000).toNat)
+      let short := (waited.zip sched).filter (fun (g, want) => g * 100 < want * 99)
+      if !short.isEmpty then s!"SPEC key=wait-shorter-than-schedule-{api}-{kind} gaps_us={waited} schedule_us={sched}"
+      else s!"OK tags=gaps,{api},{kind},waits{waited.length}"
   | _ => "BAD command"
 
 end GV.Drive.C17
